@@ -1567,11 +1567,7 @@ class LangServer:
                 self._load_config_file_preproc(config_dict)
 
                 # Debug options
-                debugging: bool = config_dict.get("debug_log", self.debug_log)
-                # If conf option is different than the debug option passed as a
-                # command line argument return True so that debug log is setup
-                if debugging != self.debug_log and not self.debug_log:
-                    self.debug_log = True
+                self.debug_log = config_dict.get("debug_log", self.debug_log)
 
         except FileNotFoundError:
             self.post_message(f"Configuration file '{self.config}' not found")
@@ -1642,8 +1638,8 @@ class LangServer:
         )
 
     def _load_config_file_preproc(self, config_dict: dict) -> None:
-        self.pp_suffixes = config_dict.get("pp_suffixes", None)
-        self.pp_defs = config_dict.get("pp_defs", {})
+        self.pp_suffixes = config_dict.get("pp_suffixes", self.pp_suffixes)
+        self.pp_defs = config_dict.get("pp_defs", self.pp_defs)
         if isinstance(self.pp_defs, list):
             self.pp_defs = {key: "" for key in self.pp_defs}
 
